@@ -215,10 +215,35 @@ Definition all_before (log first second : list N) : bool :=
                                       end) second) first.
 Definition count_N (x : N) (l : list N) : nat := length (filter (N.eqb x) l).
 
-(** The property on ONE observed run of case [c] under suite [s] (any of the three ways):
+(** the identifier is one that the status in force allows *)
+Definition status_allows (st : Outcome.tc_status) (i : ident) : bool :=
+  match i with
+  | IdAccess _ => true
+  | IdFull s =>
+      match st with
+      | TSkip => full_status_eqb s SKIPPED
+      | TPass => negb (full_status_eqb s SKIPPED || full_status_eqb s XPASS || full_status_eqb s XFAIL)
+      | TFail => negb (full_status_eqb s SKIPPED || full_status_eqb s PASS || full_status_eqb s FAIL)
+      end
+  end.
+(** identifiers of executions that got past the act phase *)
+Definition act_was_run (i : ident) : bool :=
+  match i with
+  | IdFull (PASS | FAIL | XPASS | XFAIL) => true
+  | _ => false
+  end.
+
+(** The property on ONE observed run of case [c] under suite [s] (any of the three ways), judged
+    against the declarative merge order [spec_phase] alone:
     only markers of [s] and of [c] are written; in every phase the suite's come first, except in
-    cleanup where they come last; and when the case passes every non-act marker of both is written
-    exactly once. *)
+    cleanup where they come last; when the case passes every marker of setup / before-assert /
+    assert / cleanup of both is written exactly once;
+    conf: the suite's settings first, the case's after them, so that the case's status / actor wins:
+    the identifier is one the status in force allows;
+    act: the act phase is the suite's act contents followed by the case's: if the actor in force
+    does not accept that many lines the identifier is SYNTAX_ERROR, otherwise — when the execution
+    got past the act phase — the act markers written are exactly those of the suite's lines followed
+    by those of the case's lines (none under the null actor). *)
 Definition contents_ok (k : suite_case) (s : option fname) (c : fname) (o : ident * list N) : bool :=
   let sd := match s with Some s => suite_doc_of k s | None => CD [] [] [] [] [] [] end in
   let cds := case_docs_of k c in
@@ -233,7 +258,22 @@ Definition contents_ok (k : suite_case) (s : option fname) (c : fname) (o : iden
                        | _ => forallb (fun x => Nat.eqb (count_N x log) 1) (doc_marks sd p) &&
                               existsb (fun cd => forallb (fun x => Nat.eqb (count_N x log) 1) (doc_marks cd p)) cds
                        end) all_phases
-   else true).
+   else true) &&
+  existsb (fun cd =>
+             let conf := spec_phase sd cd Conf in
+             let st := status_of conf in
+             let a := actor_of ADefault conf in
+             let act := spec_phase sd cd Act in
+             status_allows st (fst o) &&
+             match st with
+             | TSkip => true
+             | _ =>
+                 if act_ok a (length act) then
+                   if act_was_run (fst o)
+                   then list_eqb N.eqb (filter (fun x => memN x (marks_of act)) log) (act_labels a act)
+                   else true
+                 else ident_eqb (fst o) (IdFull SYNTAX_ERROR)
+             end) cds.
 
 Definition check_suite_case (k : suite_case) : bool * bool :=
   ( (* correspondence *)
